@@ -134,6 +134,7 @@ func init() {
 				if !bytes.Equal(got, want) {
 					return rp.Result{OK: false, What: "marshalled record differs from the ISO layout: " + rp.FirstDiff(got, want), Deviation: classifyRecord(got, want)}
 				}
+				c.Hold(i, "marshalled configuration record", got)
 			}
 			return rp.Result{OK: true}
 
@@ -156,6 +157,7 @@ func init() {
 			if !bytes.Equal(got, want) {
 				return rp.Fail(i, "marshalled sample differs from the layout: %s", rp.FirstDiff(got, want))
 			}
+			c.Hold(i, "marshalled sample", got)
 			rd := avc.NewAVCSample(uint8(s.Lsm1))
 			if err := rd.UnmarshalBinary(want); err != nil {
 				return rp.Fail(i, "unmarshal failed: %v", err)
@@ -182,6 +184,7 @@ func init() {
 			if !bytes.Equal(got, want) {
 				return rp.Fail(i, "marshalled NAL unit differs: %s", rp.FirstDiff(got, want))
 			}
+			c.Hold(i, "marshalled NAL unit", got)
 			if v.Size() != len(want) {
 				return rp.Fail(i, "Size()=%d, want %d", v.Size(), len(want))
 			}
